@@ -239,6 +239,14 @@ def run(ctx):
         r1.check(wit is None, "cleanup-in-step@" + n_.split("::")[-2], "%s: no checkin_cleanup follows a receive without is_data_available()==false in between (%d receive(s), %d clean-up call(s))" % (n_.split("::")[-2], len(rcv_), len(ccs_)),
                  "%s: checkin_cleanup can run (and clear the release gate) while a reply is still partly unread - a client write that fails in the middle of a large reply leaves the rest on the connection for the next client" % n_.split("::")[-2],
                  "", wit and b_.describe_path(wit))
+    # `has no unread reply pending`: the callers stop reading when recv says no more is to come - so recv must not hand a piece out with that flag
+    # false anywhere but at the end of a reply (clauses shared with C03-R4)
+    from common import recv_handout_findings
+    for key_, ok_, okm_, fm_ in recv_handout_findings(F):
+        if ok_ is None:
+            r1.missing(fm_)
+        else:
+            r1.check(ok_, "reply-read-to-its-end:" + key_, okm_, fm_ + " - checkin_cleanup then finds nothing to clean, the release gate opens and the next client reads the rest of this reply")
     r1.check(n_cc >= 4, "cleanup-sites", "%d checkin_cleanup call sites found" % n_cc, "only %d checkin_cleanup call sites found (4 known)" % n_cc)
 
     # ------------------------------------------------------------ R2 explicit exits
